@@ -205,7 +205,10 @@ impl<'a> Visitor for PpVis<'a> {
             nonce.copy_from_slice(&e.nonce.0);
             let (pb, ib) = match ad.shard(vdaf, &plan.ctx.0, &e.meas, &nonce, &e.rand.0, false) {
                 Ok(x) => x,
-                Err(_) => return Err("sharding an honest measurement failed in the ping-pong world".into()),
+                Err(_) => {
+                    ctx.counters.inc("skipped.honest_shard_failed");
+                    return Ok(ctx.finish());
+                }
             };
             let public = V::PublicShare::get_decoded_with_param(vdaf, &pb).map_err(|e| e.to_string())?;
             let i0 = V::InputShare::get_decoded_with_param(&(vdaf, 0), &ib[0]).map_err(|e| e.to_string())?;
@@ -226,8 +229,11 @@ fn run_world<V: SimVdaf<VK>, const VK: usize>(vdaf: &V, plan: &PlanB, ctx: &mut 
     } else {
         ctx.counters.inc(&format!("class.{}{}", plan.vdaf, plan.rounds));
     }
-    let w = WorldB::new(vdaf, plan, ctx, setups, ap, refusals)?;
-    w.run();
+    match WorldB::new(vdaf, plan, ctx, setups, ap, refusals) {
+        Ok(w) => w.run(),
+        Err(e) if e == "SKIP" => ctx.counters.inc("skipped.honest_broadcast_failed"),
+        Err(e) => return Err(e),
+    }
     Ok(())
 }
 
